@@ -14,6 +14,7 @@ PROPS = {
     'C03': {'units': ['opt'], 'kani': K_ANALYSIS},
     'C19': {'units': [], 'kani': K_CONTEXT},
     'C20': {'units': ['gad'], 'kani': []},
+    'C05': {'units': ['chal'], 'kani': []},
 }
 
 TB_COMMON = ['p3 field types satisfy the field laws the lemmas name; machine field arithmetic treated as mathematical',
@@ -61,8 +62,19 @@ META['C20'] = {
             'Not yet under contract: compute_quotient_chunk_products, compute_quotient_evaluation, periodic evaluate_one, evaluate_polynomial, circuit_exp_by_constant.',
 }
 
+META['C05'] = {
+    'technique': 'Verus contracts on extracted real challenger methods: refinement of a transcribed native DuplexChallenger model through an abstraction function',
+    'text': 'Deductive refinement proof: every public method of CircuitChallenger (init, observe, sample, observe_ext, sample_ext, sample_bits, check_pow_witness, clear) '
+            'and the internal duplexing step take a state satisfying the representation invariant to one satisfying it, and the abstraction function commutes with the '
+            'corresponding native DuplexChallenger operation (p3-challenger 0.6.3, transcribed). Since each method is proved from the invariant alone, induction over the '
+            'history covers every finite interleaving, every WIDTH/RATE and both permutation families — which the 45 transcript tests only sample.',
+    'note': 'Assumed at this layer: the four permutation back ends (duplexing_base/ext/_p1) have the callee contract tracked-state := perm(tracked-state) (base path: tag added by the '
+            'table through absorb_len, capacity carried by in-table chaining); builder decomposition/recomposition return the honest coefficient/bit vectors (canonicity is C12); '
+            'the native model is a transcription; RATE <= 255 (length tag is a byte). Not decided here: equality of sample_bits with the native as_canonical_u64 & mask (needs C12).',
+}
+
 NOT_APPLICABLE = {
     'C01': 'whole-verifier equivalence with the external native verifier (p3-uni-stark / p3-batch-stark): needs a relational spec of ~1.5 kLoC of dependency code across four generic traits; no per-function contract within reach expresses it. Its parts are decided under C05/C07/C08/C13/C14/C15/C20.',
 }
-for _p in ['C04', 'C05', 'C06', 'C07', 'C08', 'C09', 'C10', 'C11', 'C12', 'C13', 'C14', 'C15', 'C16', 'C17', 'C18']:
+for _p in ['C04', 'C06', 'C07', 'C08', 'C09', 'C10', 'C11', 'C12', 'C13', 'C14', 'C15', 'C16', 'C17', 'C18']:
     NOT_APPLICABLE.setdefault(_p, 'not reached yet: kernel designed in DESIGN.md §5 but its contracts are not built; not claimed')
